@@ -5,8 +5,9 @@ import Uquic.Proofs.WireMoreTP4
 set_option linter.unusedSimpArgs false
 set_option linter.unusedVariables false
 
-namespace Uquic.Proofs.Wire
-open Uquic.Model.Wire Uquic.Model.Wire.Varint Uquic.Model.Wire.TP
+namespace Uquic.Proofs.WireMore
+open Uquic.Proofs.Wire
+open Uquic.Model.Wire Uquic.Model.Wire.Varint Uquic.Model.Wire.TP Uquic.Model.Wire.TP.RT
 
 theorem known_ids (g : Nat) (hk : isKnownID g = false) :
     g ∉ [idBidiLocal, idBidiRemote, idUni, idInitialMaxData, idStreamsBidi, idStreamsUni, idMaxIdleTimeout,
@@ -216,4 +217,4 @@ theorem itemsBytes_length : ∀ (l : List Item), itemsFit l = true → (itemsByt
     rw [itemsFit_raw] at h
     rw [itemsBytes_raw, List.length_append, itemsBytes_length l h]; rfl
 
-end Uquic.Proofs.Wire
+end Uquic.Proofs.WireMore
